@@ -12,6 +12,11 @@ Tie to /repo (harness/cmd/mutex, real commservices/mutex.SharedMutex built with 
     goes through the Lean monitor (`monitor_accepts_iff`);
   * stress / lockstep rounds / overlap gates under a 20 s watchdog (deadlock freedom; compatible holders
     must be inside together), plus an in-process occupancy oracle;
+  * `parties` (three and more parties): holders inside, waiters OBSERVED parked in Lock, then holders compatible
+    with everybody must get inside while the others hold / are parked (`third_party_not_serialised`); a holder
+    that does not is the result `serialised:<holder>~<wait reason>` with replay;
+  * `ptasks`: task sets created through the real `pip:run` command line with --rlock/--wlock lists (a name in
+    both lists is held read-WRITE); intervals judged by the Lean monitor against `parseLocks` of the lists;
   * `markBoolMapForNamespace` (rlock/wlock parsing) reached through the exported pipc.Run and compared
     with the Lean function;
   * tasks layer (lean/Goat/Model/MutexTasks.lean, Props sections 6-8): the holders are pipeline tasks that
@@ -64,7 +69,7 @@ META = dict(
 )
 
 SHARDS = 8
-CONC = ("sched", "stress", "overlap", "rounds", "tasks")
+CONC = ("sched", "stress", "overlap", "rounds", "tasks", "parties", "ptasks")
 
 
 def _kind(op):
@@ -92,6 +97,14 @@ def _concrete(impl):
     m = re.search(r"excl:(\S+)", impl)
     if m:
         return "two holders were inside together with conflicting access to '%s' (occupancy oracle)" % m.group(1)
+    m = re.findall(r"serialised:(\d+)~(\S+)", impl)
+    if m:
+        return ("holder(s) %s - whose lock maps are disjoint from, or only read-overlap with, the map of EVERY other "
+                "holder of the case - did not get inside while the first holders were inside and the waiters (observed "
+                "parked in SharedMutex.Lock by the runtime's wait reasons) were parked: not inside after the generous "
+                "wait, goroutine wait reason %s (w = sync.Mutex.Lock); after the first holders unlocked everybody "
+                "finished: the lock serialised compatible holders against each other"
+                % (",".join(h for h, _ in m), ",".join(k for _, k in m)))
     return ""
 
 
@@ -148,7 +161,7 @@ def _search(ctx, go, model, holders, tag):
     """Spec vs implementation on the holders of a disagreeing case: lockstep rounds and stress, repeated;
     returns (op, impl result, why) of a concrete failure or None"""
     ops = ["rounds " + holders] * 24 + ["stress %s | 30" % holders] * 8
-    if holders.startswith("tasks "):    # a whole `tasks` op: the same task set under the deterministic and random controllers
+    if holders.startswith("tasks ") or holders.startswith("ptasks "):    # a whole `tasks` op: the same task set under the deterministic and random controllers
         spec = holders.split(" | ")[0]
         ops = [spec + " | adv"] + [spec + " | rnd %d" % k for k in range(1, 24)]
     res, trace, crash = _run_impl(ctx, go, ops, tag)
@@ -177,11 +190,19 @@ def _monitor_text(v):
 
 
 def _task_specs(op):
-    """[(waits, {name: write?}, flags)] of a `tasks` op; flags: n nested body, f failing body, digits scope group"""
+    """[(waits, {name: write?}, flags)] of a `tasks` op; flags: n nested body, f failing body, digits scope group;
+    of a `ptasks` op: the map the two lists stand for (wlock wins), flags = `b` if a name is in both lists"""
     res = []
     for t in op.split(" ")[1].split(";"):
         f = t.split("/")
         waits = [] if f[0] in ("-", "") else [int(x) for x in f[0].split(",")]
+        if op.startswith("ptasks "):
+            rl = [] if f[1] == "-" else f[1].split(",")
+            wl = [] if f[2] == "-" else f[2].split(",")
+            rows = dict((n, False) for n in rl)
+            rows.update((n, True) for n in wl)
+            res.append((waits, rows, "b" if set(rl) & set(wl) else ""))
+            continue
         rows = {} if f[1] in ("-", "") else dict((r.split(":")[0], r.split(":")[1] == "w") for r in f[1].split(","))
         res.append((waits, rows, f[2] if len(f) == 3 else ""))
     return res
@@ -237,6 +258,8 @@ def _minimise_sched(ctx, go, model, op):
 
 
 def _features(op, impl):
+    if impl == "bad-op":
+        return ["bad-op"]
     k = _kind(op)
     f = [k]
     if k == "sched":
@@ -245,6 +268,26 @@ def _features(op, impl):
                 f.append("sched:" + tag)
     elif k == "locks":
         f.append("locks:" + impl.split(" ", 1)[0])
+    elif k == "parties":
+        na, nb = (int(x) for x in op.split(" | ")[1].split())
+        hs = op.split(" ")[1].split(";")
+        f.append("parties:waiters=%d" % min(nb, 3))
+        f.append("parties:late-comers=%d" % min(len(hs) - na - nb, 3))
+        if any("," in h for h in hs[na:na + nb]) and any("," in h for h in hs[na + nb:]):
+            f.append("parties:multi-entry-waiter-and-late-comer")
+        rd = set(r.split(":")[0] for h in hs[:na + nb] for r in h.split(",") if r.endswith(":r"))
+        if any(r.split(":")[0] in rd for h in hs[na + nb:] for r in h.split(",")):
+            f.append("parties:read-overlap")
+    elif k == "ptasks":
+        specs = _task_specs(op)
+        f.append("ptasks:" + op.split(" | ")[1].split(" ")[0])
+        for i, (_, rows, fl) in enumerate(specs):
+            if fl and any(n in rows2 for j, (_, rows2, _) in enumerate(specs) if j != i
+                          for n in rows if rows[n]):
+                f.append("ptasks:name-in-both-lists-contended")
+                break
+        if any(w for w, _, _ in specs):
+            f.append("ptasks:wait-list")
     elif k == "tasks":
         specs = _task_specs(op)
         f.append("tasks:" + op.split(" | ")[1].split(" ")[0])
@@ -266,12 +309,16 @@ def _features(op, impl):
 
 
 def _nontrivial(op, impl):
+    if impl == "bad-op":
+        return False
     k = _kind(op)
     if k == "sched":
         return "~" in impl
     if k == "locks":
         return impl.startswith("map ") and impl != "map -"
-    if k == "tasks":
+    if k == "parties":
+        return True     # by construction: holders inside, waiters parked, late-comers
+    if k in ("tasks", "ptasks"):
         specs = _task_specs(op)
         names = [set(r) for _, r, _ in specs]
         return any(w for w, _, _ in specs) or any(names[i] & names[j] for i in range(len(names)) for j in range(i))
@@ -380,7 +427,11 @@ def run(ctx):
     ctx.rule = ("corpus + %d generated ops from VERIF_SEED: 40%% gated schedules (2-6 holders, pools of 1-3 names, maps "
                 "in shuffled order, random gate-opening actions), 20%% stress (2-16 holders, pools of 1-6 names, 1-30 "
                 "iterations), 10%% overlap gates (2-5 mutually compatible holders + bystanders), 10%% lockstep rounds "
-                "(2-8 holders), 20%% rlock/wlock lists; oracle: %d further stress/overlap/rounds cases. non-trivial = "
+                "(2-8 holders), 20%% rlock/wlock lists; 6%% (taken from the schedules) `parties`: 1-3 holders that stay inside, "
+                "1-4 waiters that each conflict with one of them (observed parked in Lock by the runtime's wait reasons), "
+                "then 1-3 late-comers compatible with EVERY other holder (private names, names everybody only reads; "
+                "mostly multi-entry maps) that must get inside while the others hold / are parked; "
+                "oracle: %d further stress/overlap/rounds/parties cases + the 11 fixed parties cases. non-trivial = "
                 "some holder was observed blocked (sched) / two holders share a name (others) / a non-empty map was "
                 "parsed (locks); distinct = distinct op lines.  Tasks layer: the adversarial family (20 task sets: D "
                 "waits for B, both need a resource at least one writes, B is parked behind a third task holding a smaller "
@@ -391,7 +442,12 @@ def run(ctx):
                 "of the tasks, half of those share a conflicting resource with a prerequisite, 1/6 nested bodies; in half of "
                 "the sets the tasks are spread over 2-3 scope groups = root scopes and each body fails with probability 1/4) "
                 "under a "
-                "random controller that interleaves submissions, parked per-name acquisitions and body gates; tasks "
+                "random controller that interleaves submissions, parked per-name acquisitions and body gates; every "
+                "fourth generated task set (and 10 fixed ones) is a `ptasks` case: the tasks are created by running the real "
+                "command line `pip:run --rlock=<list> --wlock=<list> --wait=<list>` (termexec.RunString), every written name "
+                "is in the wlock list and with probability 1/2 ALSO in the rlock list, in shuffled positions; the bodies "
+                "record intervals judged by the Lean interval monitor against the map the lists stand for (wlock wins: "
+                "Lean `parseLocks`), the map the task was created with is read back and compared; tasks "
                 "oracle: the family + %d further task sets per 8 shards; non-trivial = a wait list or a shared name"
                 % (n_rand, n_oracle, n_tasks, n_toracle))
     ops = []
@@ -427,7 +483,12 @@ def run(ctx):
     ctx.histogram["monitor:reject"] = len(rejected)
     for i, t, v in rejected[:3]:
         concrete_found = True
-        ctx.violation("impl-vs-spec", _monitor_text(v), lines=[ops[i]],
+        why = _monitor_text(v)
+        if _kind(ops[i]) == "ptasks":
+            why += (" - the bodies of tasks created by `pip:run --rlock=… --wlock=…`; the rows of each interval are what the "
+                    "two lists of the task stand for (a name of the wlock list is held read-write even if the rlock list "
+                    "names it too)")
+        ctx.violation("impl-vs-spec", why, lines=[ops[i]],
                       annotations=["trace: " + t, "monitor: " + v], concrete=True)
     # --- line-by-line comparison
     mism = []
@@ -444,6 +505,7 @@ def run(ctx):
         if not _agree(a, b):
             mism.append((i, o, a, b))
     ctx.extra["mismatches"] = len(mism)
+    mism.sort(key=lambda m: 0 if _concrete(m[2]) else 1)    # stable: those whose own result contradicts the property first
     for i, o, a, b in mism[:3]:
         why = _concrete(a)
         if why:
@@ -465,7 +527,7 @@ def run(ctx):
                 ann = ["original op: " + o, "impl: " + (ra[0] or "crash"),
                        "model: " + _run_model(ctx, model, [mo], "minfinal")[0]]
         if _kind(o) in CONC:
-            found = _search(ctx, go, model, o if _kind(o) == "tasks" else o.split(" ")[1], "search%d" % i)
+            found = _search(ctx, go, model, o if _kind(o) in ("tasks", "ptasks") else o.split(" ")[1], "search%d" % i)
             if found:
                 concrete_found = True
                 fo, fr, fwhy = found
@@ -479,14 +541,16 @@ def run(ctx):
     for f in ofails[:3]:
         concrete_found = True
         m = re.match(r"FAIL (.*) => (.*)$", f)
-        ctx.violation("impl-vs-spec", "oracle: " + (_concrete(m.group(2)) if m else f),
+        ctx.violation("impl-vs-spec", "oracle: " + (_concrete(m.group(2)) or m.group(2) if m else f),
                       lines=[m.group(1)] if m else [], annotations=["oracle: " + f], concrete=True)
     for f in _tasks_oracle(ctx, go, n_toracle)[:3]:
         concrete_found = True
         m = re.match(r"FAIL (.*) => (.*)$", f)
         ctx.violation("impl-vs-spec", "tasks oracle: " + (_concrete(m.group(2)) or m.group(2) if m else f),
                       lines=[m.group(1)] if m else [], annotations=["oracle: " + f], concrete=True)
-    for k in ("sched:~w", "sched:~a", "sched:~r", "sched:ND", "locks:err", "locks:map", "tasks:adv", "tasks:rnd",
+    for k in ("parties", "parties:waiters=1", "parties:waiters=3", "parties:multi-entry-waiter-and-late-comer",
+              "parties:read-overlap", "ptasks:adv", "ptasks:rnd", "ptasks:name-in-both-lists-contended", "ptasks:wait-list",
+              "sched:~w", "sched:~a", "sched:~r", "sched:ND", "locks:err", "locks:map", "tasks:adv", "tasks:rnd",
               "tasks:wait-list", "tasks:dependant-shares-resource", "tasks:nested-body", "tasks:failing-body",
               "tasks:failed-holder-then-needed", "tasks:failing-prerequisite", "tasks:several-scope-groups"):
         if not ctx.histogram.get(k):
@@ -540,7 +604,7 @@ def replay(ctx, path):
             print("monitor", v)
             rc |= v != "accept"
             continue
-        reps = 1 if _kind(o) == "locks" else (8 if _kind(o) == "sched" else (3 if _kind(o) == "tasks" else 20))
+        reps = 1 if _kind(o) == "locks" else (8 if _kind(o) == "sched" else (3 if _kind(o) in ("tasks", "ptasks", "parties") else 20))
         for k in range(reps):
             impl, trace, crash = _run_impl(ctx, go, [o], "rp")
             m = _run_model(ctx, model, [o], "rp")[0]
